@@ -180,6 +180,10 @@ func (ex *Exec) callFn(caller *frame, pos token.Pos, fn *ssa.Function, args []va
 	if o := fn.Origin(); o != nil {
 		name = o.String()
 	}
+	if fn.Name() == "ProtoReflect" && fn.Signature.Recv() != nil && len(args) == 1 {
+		ex.Models["protoreflect(model).ProtoReflect"]++
+		return ex.protoReflectCall(fn.Signature.Recv().Type(), args[0])
+	}
 	if m, ok := models[name]; ok {
 		ex.Models[name]++
 		ex.curFrame = caller
